@@ -1,17 +1,130 @@
 import OvniModel.Emu.System
+import OvniModel.Emu.SystemSpec
+import OvniModel.Lemmas.SystemMain
 
-/-! # C15 — metadata merge (work in progress: witnesses only) -/
+/-!
+# C15 — metadata merge is distribution-independent; conflicts are refused cleanly
+
+Property theorems only.  Model: `OvniModel/Emu/System.lean` (`build m ss`:
+`trace_load`'s relpath sort followed by `system_init`; `m = .asIs` is the code as
+it is, `m = .fixed` replaces the `cpus_array[index]` lookup of `load_cpus` by a
+search among the CPUs merged so far).  Vocabulary: `OvniModel/Emu/SystemSpec.lean`
+(`appFacts`/`rankFacts`/`cpuFacts` = the union of the per-process and per-loom
+attributes, `SameUnion`, `RelpathsDistinct`).
+-/
 namespace Ovni.Props.C15
 open Ovni.Emu.System
 
+/-! ## Concrete streams used by the witnesses and the non-vacuity examples -/
+
 def mkStream (relpath loom : Str) (pid tid : Int) (appId : Option Int)
-    (cpus : Option (List (Int × Int))) : StreamMeta :=
+    (cpus : Option (List (Int × Int))) (rank : Option Int := none) (nranks : Option Int := none) :
+    StreamMeta :=
   { tp := { relpath := relpath, part := some sThread, loom := some loom, pid := pid, tid := tid,
             finished := 1, hasVersion := true, hasCommit := true },
-    appId := appId, rank := none, nranks := none, cpus := cpus }
+    appId := appId, rank := rank, nranks := nranks, cpus := cpus }
 
-/-- §6-B: CPUs listed as (index 1, phyid 1) then (index 0, phyid 0). -/
-theorem crash_witness_descending :
-    build .asIs [mkStream [97] [110] 1 1 (some 1) (some [(1, 1), (0, 0)])] = .crash := by decide
+/-- One thread listing its two CPUs in ascending index order. -/
+def wAsc : List StreamMeta := [mkStream [97] [110] 1 1 (some 1) (some [(0, 0), (1, 1)])]
+/-- §6-B: the same CPUs listed as (index 1, phyid 1) then (index 0, phyid 0). -/
+def wDesc : List StreamMeta := [mkStream [97] [110] 1 1 (some 1) (some [(1, 1), (0, 0)])]
+/-- §6-B: index 0 bound to phyid 0 and to phyid 5. -/
+def wTwoPhy : List StreamMeta := [mkStream [97] [110] 1 1 (some 1) (some [(0, 0), (0, 5)])]
+
+/-- Two looms, three processes with ranks, app id / ranks / CPUs spread over the threads. -/
+def wBig : List StreamMeta :=
+  [ mkStream [98, 49] [110, 50] 7 71 (some 3) none (some 2) (some 3),
+    mkStream [98, 50] [110, 50] 7 70 none (some [(0, 4), (1, 2)]),
+    mkStream [97, 49] [110, 49] 5 50 (some 1) (some [(0, 9)]) (some 1) (some 3),
+    mkStream [97, 50] [110, 49] 4 41 (some 2) none (some 0) (some 3),
+    mkStream [97, 51] [110, 49] 4 40 none (some [(0, 9)]) ]
+
+/-- The same union, attributes moved to other threads, CPU lists duplicated,
+    streams enumerated in another order. -/
+def wBig' : List StreamMeta :=
+  [ mkStream [97, 51] [110, 49] 4 40 (some 2) none (some 0) (some 3),
+    mkStream [97, 50] [110, 49] 4 41 (some 2) (some [(0, 9), (0, 9)]),
+    mkStream [98, 50] [110, 50] 7 70 (some 3) none (some 2) (some 3),
+    mkStream [97, 49] [110, 49] 5 50 (some 1) none (some 1) (some 3),
+    mkStream [98, 49] [110, 50] 7 71 none (some [(0, 4), (1, 2), (0, 4)]) ]
+
+/-! ## The crash (DESIGN §6-B) -/
+
+theorem crash_witness_descending : build .asIs wDesc = .crash := by decide
+
+theorem crash_witness_two_phyids : build .asIs wTwoPhy = .crash := by decide
+
+/-- The fixed lookup accepts the consistent list in any order and refuses the
+    contradictory one. -/
+theorem fixed_on_witnesses :
+    build .fixed wDesc = build .fixed wAsc ∧ (build .fixed wAsc).okPart ≠ none ∧
+    build .fixed wTwoPhy = .error .cpuIndexRedefined := by decide
+
+/-- With the lookup fixed, `build` never crashes. -/
+theorem fixed_never_crashes (ss : List StreamMeta) : build .fixed ss ≠ .crash :=
+  build_fixed_ne_crash ss
+
+/-! ## build_perm_invariant -/
+
+/-- Enumeration order alone (`nftw`/`readdir` order): the result is identical,
+    error class and crash included, for the code as it is. -/
+theorem build_enum_order_invariant (m : Mode) (ss ss' : List StreamMeta)
+    (hp : ss.Perm ss') (hd : RelpathsDistinct ss) : build m ss = build m ss' := by
+  unfold build
+  rw [load_eq_of_perm hp hd]
+
+-- OPEN (refuted for the code as it is, see `not_build_perm_invariant_asIs`):
+--   theorem build_perm_invariant (ss ss') (hd : RelpathsDistinct ss) (hd' : RelpathsDistinct ss')
+--       (hu : SameUnion ss ss') : (build .asIs ss).okPart = (build .asIs ss').okPart
+--       ∧ build .asIs ss ≠ .crash
+-- What is missing is exactly the hypothesis `build .asIs _ ≠ .crash` on both sides.
+
+/-- Same union of metadata (same threads; per-process and per-loom attributes
+    carried by any threads of that process / loom, any number of times; any
+    enumeration order) ⇒ same hierarchy, same order, same rows, or both fail —
+    provided neither presentation makes `load_cpus` dereference the
+    unallocated `cpus_array` (decidable: `build` is computable). -/
+theorem build_perm_invariant_partial (ss ss' : List StreamMeta)
+    (hd : RelpathsDistinct ss) (hd' : RelpathsDistinct ss') (hu : SameUnion ss ss')
+    (hc : build .asIs ss ≠ .crash) (hc' : build .asIs ss' ≠ .crash) :
+    (build .asIs ss).okPart = (build .asIs ss').okPart :=
+  okPart_eq_of_transfer (fun _ hb => build_ok_transfer hd hu hc' hb)
+    (fun _ hb => build_ok_transfer hd' hu.symm hc hb)
+
+/-- The hypothesis cannot be dropped for the code as it is: two presentations
+    of the same union, one accepted, one crashing. -/
+theorem not_build_perm_invariant_asIs :
+    ¬ (∀ ss ss' : List StreamMeta, RelpathsDistinct ss → RelpathsDistinct ss' → SameUnion ss ss' →
+        (build .asIs ss).okPart = (build .asIs ss').okPart ∧ build .asIs ss' ≠ .crash) := by
+  intro h
+  have hu : SameUnion wAsc wDesc := by
+    refine ⟨List.Perm.refl _, ?_, ?_, ?_⟩ <;> simp [SameSet, wAsc, wDesc, mkStream, appFacts, rankFacts,
+      cpuFacts, appFactsOf, rankFactsOf, cpuFactsOf, isThr]
+  exact (h wAsc wDesc (by decide) (by decide) hu).2 crash_witness_descending
+
+/-- Full strength for the fixed lookup: no hypothesis about crashes. -/
+theorem build_perm_invariant_fixed (ss ss' : List StreamMeta)
+    (hd : RelpathsDistinct ss) (hd' : RelpathsDistinct ss') (hu : SameUnion ss ss') :
+    (build .fixed ss).okPart = (build .fixed ss').okPart ∧ build .fixed ss ≠ .crash ∧
+      build .fixed ss' ≠ .crash :=
+  ⟨okPart_eq_of_transfer (fun _ hb => build_ok_transfer hd hu (build_fixed_ne_crash _) hb)
+    (fun _ hb => build_ok_transfer hd' hu.symm (build_fixed_ne_crash _) hb),
+   build_fixed_ne_crash _, build_fixed_ne_crash _⟩
+
+/-- Whenever the code as it is does not crash it computes what the fixed
+    lookup computes (so the fix changes nothing but the crash). -/
+theorem asIs_agrees_with_fixed (ss : List StreamMeta) (hd : RelpathsDistinct ss)
+    (hc : build .asIs ss ≠ .crash) : (build .asIs ss).okPart = (build .fixed ss).okPart :=
+  okPart_eq_of_transfer
+    (fun _ hb => build_ok_transfer hd (SameUnion.of_perm (List.Perm.refl _)) (build_fixed_ne_crash _) hb)
+    (fun _ hb => build_ok_transfer hd (SameUnion.of_perm (List.Perm.refl _)) hc hb)
+
+/-- Non-vacuity: the hypotheses hold for a two-loom, three-process trace and a
+    genuinely different distribution of it, and the common result is a success. -/
+example : RelpathsDistinct wBig ∧ RelpathsDistinct wBig' ∧ build .asIs wBig ≠ .crash ∧
+    build .asIs wBig' ≠ .crash ∧ (build .asIs wBig).okPart ≠ none ∧ wBig.map (·.tp) ≠ wBig'.map (·.tp) := by
+  decide
+
+example : SameUnion wBig wBig' := by decide
 
 end Ovni.Props.C15
